@@ -1232,3 +1232,176 @@ Section SimS.
         apply H1. intros Hf; discriminate.
   Qed.
 End SimS.
+
+Lemma ce_lt_nil : ce_lt [] 0.
+Proof. intros x i H. discriminate. Qed.
+Lemma slots_inj_nil : slots_inj [].
+Proof. intros x y i H. discriminate. Qed.
+(* ------------------------------------------------------------------ whole programs *)
+Lemma s_vm_run_mono : forall limit k s r, S.vm_run limit k s = r -> r <> S.RFuel ->
+  forall k', k <= k' -> S.vm_run limit k' s = r.
+Proof.
+  induction k; simpl; intros s r H Hr k' Hk.
+  - congruence.
+  - destruct k'; [lia|]. simpl. destruct (S.vm_step limit s); auto. apply IHk; auto. lia.
+Qed.
+
+Lemma s_star_run : forall limit s s', S.star limit s s' -> forall k r, S.vm_run limit k s' = r ->
+  exists k', S.vm_run limit k' s = r.
+Proof.
+  induction 1; intros k r Hr; eauto.
+  destruct (IHstar k r Hr) as [k' Hk']. exists (S k'). simpl. rewrite H. auto.
+Qed.
+
+Lemma s_Grel_prims : forall tco, Grel tco lprim_globals S.prim_globals.
+Proof.
+  intros tco g. unfold lprim_globals, S.prim_globals. induction bprim_table as [|[x p] t]; simpl; auto.
+  destruct (String.eqb g x); auto. constructor.
+Qed.
+
+Lemma s_Grel_cons : forall tco G MG x v mv, Grel tco G MG -> vrel tco v mv -> Grel tco ((x, v) :: G) ((x, mv) :: MG).
+Proof. intros tco G MG x v mv H Hv g. simpl. destruct (String.eqb g x); auto. apply H. Qed.
+
+Lemma s_R1_empty : forall tco r, R1 tco r [] [] [].
+Proof. intros tco r x l H. discriminate. Qed.
+
+Lemma s_R2_empty : forall e ce, R2 e [] ce.
+Proof. intros e ce x _ _. auto. Qed.
+
+(* a top-level expression form *)
+Lemma s_sim_top : forall limit tco st MG H, Srel tco (l_store st) H -> Grel tco (l_glob st) MG ->
+  forall n e res, leval n [] e st = Some res -> n <= limit -> L.wf [] 0 e = true ->
+  match res with
+  | LVal v _ st' => exists k mv MG' H', vrel tco v mv /\ Srel tco (l_store st') H' /\ Grel tco (l_glob st') MG' /\
+      S.vm_run limit k (S.init_vm (L.compile_top tco e) MG H) =
+      S.RDone mv (S.mkVM (L.compile_top tco e) (S (length (L.compile tco [] 0 false e))) [] [] MG' H')
+  | LErr ek => exists k, S.vm_run limit k (S.init_vm (L.compile_top tco e) MG H) = S.RErr ek
+  end.
+Proof.
+  intros limit tco st MG H HS HG n e res Hev Hn Hwf.
+  pose proof (sim_all limit tco n [] e st res Hev [] false (L.compile_top tco e) 0 [] [] [] [] MG H) as Hs.
+  simpl in Hs. specialize (Hs (code_at_zero _ _) eq_refl eq_refl (s_R1_empty _ _) (s_R2_empty _ _) Hwf ce_lt_nil slots_inj_nil HS HG Hn).
+  specialize (Hs ltac:(intros Hf; discriminate)).
+  destruct res as [v r' st'|ek]; simpl in Hs.
+  - destruct Hs as (mv & MG' & H' & Hrel & HS' & HG' & sl & Hsl & _ & _ & Hst). destruct sl; [|discriminate]. unfold fall_state in Hst. simpl in Hst.
+    eapply s_star_run with (k := 1) in Hst.
+    + destruct Hst as [k' Hk']. exists k', mv, MG', H'. repeat split; eauto.
+    + simpl. unfold S.vm_step. simpl. unfold L.compile_top. rewrite nth_error_mid. simpl. reflexivity.
+  - destruct Hs as (s' & Hst & He). eapply s_star_run with (k := 1) in Hst.
+    + destruct Hst as [k' Hk']. exists k'. exact Hk'.
+    + simpl. rewrite He. auto.
+Qed.
+
+(* a top-level definition *)
+Lemma s_sim_define : forall limit tco st MG H, Srel tco (l_store st) H -> Grel tco (l_glob st) MG ->
+  forall n x e res, leval n [] e st = Some res -> n <= limit -> L.wf [] 0 e = true ->
+  match res with
+  | LVal v _ st' => exists k mv MG' H' s', vrel tco v mv /\ Srel tco (l_store st') H' /\ Grel tco (l_glob st') MG' /\
+      S.globals s' = (x, mv) :: MG' /\ S.heap s' = H' /\
+      S.vm_run limit k (S.init_vm (L.compile_define tco x e) MG H) = S.RDone S.MVoid s'
+  | LErr ek => exists k, S.vm_run limit k (S.init_vm (L.compile_define tco x e) MG H) = S.RErr ek
+  end.
+Proof.
+  intros limit tco st MG H HS HG n x e res Hev Hn Hwf.
+  pose proof (sim_all limit tco n [] e st res Hev [] false (L.compile_define tco x e) 0 [] [] [] [] MG H) as Hs.
+  simpl in Hs. specialize (Hs (code_at_zero _ _) eq_refl eq_refl (s_R1_empty _ _) (s_R2_empty _ _) Hwf ce_lt_nil slots_inj_nil HS HG Hn).
+  specialize (Hs ltac:(intros Hf; discriminate)).
+  destruct res as [v r' st'|ek]; simpl in Hs.
+  - destruct Hs as (mv & MG' & H' & Hrel & HS' & HG' & sl & Hsl & _ & _ & Hst). destruct sl; [|discriminate]. unfold fall_state in Hst. simpl in Hst.
+    set (c := L.compile tco [] 0 false e) in *.
+    assert (H3 : S.vm_run limit 3 (S.mkVM (L.compile_define tco x e) (0 + length c) ([] ++ [] ++ [mv]) [] MG' H') =
+                 S.RDone S.MVoid (S.mkVM (L.compile_define tco x e) (S (S (S (length c)))) [] [] ((x, mv) :: MG') H')).
+    { unfold L.compile_define. fold c. simpl plus. simpl app.
+      assert (E0 : nth_error (c ++ [BIND x; PUSHCONST KVoid; POPPURE]) (length c) = Some (BIND x)).
+      { replace (length c) with (length c + 0) by lia. rewrite nth_error_app_plus. auto. }
+      assert (E1 : nth_error (c ++ [BIND x; PUSHCONST KVoid; POPPURE]) (S (length c)) = Some (PUSHCONST KVoid)).
+      { replace (S (length c)) with (length c + 1) by lia. rewrite nth_error_app_plus. auto. }
+      assert (E2 : nth_error (c ++ [BIND x; PUSHCONST KVoid; POPPURE]) (S (S (length c))) = Some POPPURE).
+      { replace (S (S (length c))) with (length c + 2) by lia. rewrite nth_error_app_plus. auto. }
+      change 3 with (S (S (S 0))).
+      cbn [S.vm_run]. unfold S.vm_step at 1. cbn [S.code S.ip S.stack S.frames S.globals S.heap]. rewrite E0.
+      cbn [S.unsnoc]. cbn [S.vm_run]. unfold S.vm_step at 1. cbn [S.code S.ip S.stack S.frames S.globals S.heap]. rewrite E1.
+      unfold S.next_with. cbn [S.code S.ip S.stack S.frames S.globals S.heap app S.const_mval].
+      cbn [S.vm_run]. unfold S.vm_step at 1. cbn [S.code S.ip S.stack S.frames S.globals S.heap]. rewrite E2.
+      cbn [S.unsnoc]. unfold S.do_return. cbn [S.code S.ip S.stack S.frames S.globals S.heap]. reflexivity. }
+    destruct (s_star_run _ _ _ Hst _ _ H3) as [k' Hk'].
+    exists k', mv, MG', H'. eexists. repeat split; eauto; reflexivity.
+  - destruct Hs as (s' & Hst & He). eapply s_star_run with (k := 1) in Hst.
+    + destruct Hst as [k' Hk']. exists k'. exact Hk'.
+    + simpl. rewrite He. auto.
+Qed.
+
+Lemma s_sim_defs : forall limit tco n ds st MG H, Srel tco (l_store st) H -> Grel tco (l_glob st) MG -> n <= limit ->
+  forallb (fun d => L.wf [] 0 (snd d)) ds = true ->
+  forall x, lrun_defs n st ds = Some x ->
+  match x with
+  | inl st' => exists k MG' H', Srel tco (l_store st') H' /\ Grel tco (l_glob st') MG' /\
+                 forall k', k <= k' -> L.vm_defs limit tco false k' MG H ds = inr (MG', H')
+  | inr ek => exists k, forall k', k <= k' -> L.vm_defs limit tco false k' MG H ds = inl (S.RErr ek)
+  end.
+Proof.
+  intros limit tco n ds. induction ds as [|[y e] ds IH]; intros st MG H HS HG Hn Hwfs x Hx; simpl in Hx.
+  - inversion Hx; subst. exists 0, MG, H. repeat split; auto.
+  - simpl in Hwfs. apply andb_true_iff in Hwfs. destruct Hwfs as [Hw1 Hw2].
+    destruct (leval n [] e st) as [[v r1 st1|ek]|] eqn:He; try discriminate.
+    + destruct (s_sim_define limit tco st MG H HS HG n y e (LVal v r1 st1) He Hn Hw1)
+        as (k1 & mv & MG1 & H1 & s' & Hrel & HS1 & HG1 & Hgl & Hhp & Hrun).
+      specialize (IH (mkL (l_store st1) ((y, v) :: l_glob st1)) ((y, mv) :: MG1) H1 HS1
+                     (s_Grel_cons _ _ _ _ _ _ HG1 Hrel) Hn Hw2 x Hx).
+      destruct x as [st'|ek].
+      * destruct IH as (k2 & MG' & H' & HS' & HG' & Hk2). exists (Nat.max k1 k2), MG', H'. repeat split; auto.
+        intros k' Hk'. simpl. unfold L.finish.
+        rewrite (s_vm_run_mono limit k1 _ _ Hrun) by (try discriminate; lia).
+        rewrite Hgl, Hhp. apply Hk2. lia.
+      * destruct IH as (k2 & Hk2). exists (Nat.max k1 k2).
+        intros k' Hk'. simpl. unfold L.finish.
+        rewrite (s_vm_run_mono limit k1 _ _ Hrun) by (try discriminate; lia).
+        rewrite Hgl, Hhp. apply Hk2. lia.
+    + inversion Hx; subst x.
+      destruct (s_sim_define limit tco st MG H HS HG n y e (LErr ek) He Hn Hw1) as (k1 & Hrun).
+      exists k1. intros k' Hk'. simpl. unfold L.finish.
+      rewrite (s_vm_run_mono limit k1 _ _ Hrun) by (try discriminate; lia). auto.
+Qed.
+
+Lemma s_sim_program : forall limit tco n ds main res,
+  lrun_program n ds main = Some res -> n <= limit -> L.wf_program ds main = true ->
+  match res with
+  | LVal v _ _ => exists k mv s', vrel tco v mv /\ L.vm_program limit tco false k ds main = S.RDone mv s'
+  | LErr ek => exists k, L.vm_program limit tco false k ds main = S.RErr ek
+  end.
+Proof.
+  intros limit tco n ds main res H Hn Hwp. unfold lrun_program in H.
+  unfold L.wf_program in Hwp. apply andb_true_iff in Hwp. destruct Hwp as [Hwd Hwm].
+  destruct (lrun_defs n (mkL [] lprim_globals) ds) as [[st'|ek]|] eqn:Hd; try discriminate.
+  - destruct (s_sim_defs limit tco n ds (mkL [] lprim_globals) S.prim_globals [] (Forall2_nil _) (s_Grel_prims tco) Hn Hwd _ Hd)
+      as (k1 & MG' & H' & HS' & HG' & Hk1).
+    pose proof (s_sim_top limit tco st' MG' H' HS' HG' n main res H Hn Hwm) as Ht.
+    destruct res as [v r2 st2|ek].
+    + destruct Ht as (k2 & mv & MG2 & H2 & Hrel & _ & _ & Hrun). exists (Nat.max k1 k2), mv. eexists. split; eauto.
+      unfold L.vm_program. rewrite Hk1 by lia. unfold L.finish.
+      eapply (s_vm_run_mono limit k2 _ _ Hrun); [discriminate|lia].
+    + destruct Ht as (k2 & Hrun). exists (Nat.max k1 k2).
+      unfold L.vm_program. rewrite Hk1 by lia. unfold L.finish.
+      eapply (s_vm_run_mono limit k2 _ _ Hrun); [discriminate|lia].
+  - inversion H; subst res.
+    destruct (s_sim_defs limit tco n ds (mkL [] lprim_globals) S.prim_globals [] (Forall2_nil _) (s_Grel_prims tco) Hn Hwd _ Hd) as (k1 & Hk1).
+    exists k1. unfold L.vm_program. rewrite Hk1; auto.
+Qed.
+
+Lemma s_vrel_canon : forall tco v mv, vrel tco v mv -> canon_lval v = S.canon_mval mv.
+Proof.
+  intros tco. fix IH 3. intros v mv H. destruct H; simpl; auto.
+  f_equal. f_equal. f_equal. induction H; simpl; auto. f_equal; auto.
+Qed.
+
+Lemma s_program_render : forall limit tco n ds main res,
+  lrun_program n ds main = Some res -> n <= limit -> L.wf_program ds main = true ->
+  exists k, S.render_run (L.vm_program limit tco false k ds main) = render_lresult (Some res).
+Proof.
+  intros limit tco n ds main res H Hn Hwp.
+  pose proof (s_sim_program limit tco n ds main res H Hn Hwp) as Hs. destruct res as [v r st|ek].
+  - destruct Hs as (k & mv & s' & Hrel & Hrun). exists k. rewrite Hrun. simpl.
+    rewrite (s_vrel_canon _ _ _ Hrel). auto.
+  - destruct Hs as (k & Hrun). exists k. rewrite Hrun. auto.
+Qed.
+
